@@ -78,7 +78,10 @@ def parseTF (j : Json) : R TFCfg := do
                  decay := ← getRat shj "decay" : TFShampoo })
   let sk ← if skj.isNull then pure none else do
     pure (some { rank := ← getInt skj "rank", updateFreq := ← getInt skj "update_freq", decay := ← getRat skj "decay",
-                 addGgt := ← getBool skj "add_ggt", ekfac := ← getBool skj "ekfac" : TFSketchy })
+                 addGgt := ← getBool skj "add_ggt", ekfac := ← getBool skj "ekfac",
+                 alloc := ← (let aj := fieldD skj "alloc" Json.null
+                             if aj.isNull then pure none else do
+                               pure (some (← asListOf (asListOf asNat) aj))) : TFSketchy })
   pure {
     graft := ← parseGraft (← getStr j "graft")
     graftDecay := ← getRat j "graft_decay"
@@ -96,12 +99,6 @@ def parseTF (j : Json) : R TFCfg := do
     wd := ← getRat j "wd"
     wdAfter := ← getBool j "wd_after"
     lrSched := ← getBool j "lr_schedule" }
-
-def tfSteps (c : TFCfg) : Nat → TFLayout → Except Err TFLayout
-  | 0, L => pure L
-  | k + 1, L => do
-      let L' ← tfStep c L
-      tfSteps c k L'
 
 def sm3Steps (ps : List (List Nat)) : Nat → List SM3Param → Except Err (List SM3Param)
   | 0, L => pure L
